@@ -172,3 +172,67 @@ def rerun_C11(fail):
     import slice_hash
 
     return slice_hash.rerun(fail)
+
+
+# =============================================================================== heavy hitters C03 C04 C13
+
+HH_RULE = ("random histories (4-60 ops: add/update/dict/add_ngram/merge/save-load/query on 1-4 HeavyHitters sketches, widths 1-16 (40% ≤ 2), depths 1-4, max_key_len 1-16, "
+           "keys incl. b'', all-NUL, (k, k+NUL) pairs, over-long keys sharing a prefix, values incl. 0, current count ±1, distance-to-ceiling ±1, ≥ 2^32); after every op the cells "
+           "(key identity, length, count, clean padding), bookkeeping, hh[k] and every query answer are compared with the Lean model, and the property oracles are evaluated on the "
+           "real values for every key identity; distinct by resolved op list, non-trivial when two added keys share a cell. ")
+
+
+def _hh(pid, tier, seed, extra=None, assumptions=None):
+    import slice_hh
+
+    res = Result(pid, tier, seed)
+    res.rule = HH_RULE + (extra or "")
+    lean = lean_check(pid)
+    rng = rng_for(seed, pid + "/hh")
+    slice_hh.run_slice(res, rng, tier, [pid], 300 if tier == QUICK else 5000, 28 if tier == QUICK else 400)
+    if pid in ("C03", "C04"):
+        slice_hh.exhaustive_width1(res, rng, 4 if tier == QUICK else 6)
+        res.oracle_failures = [f for f in res.oracle_failures if f.get("pid", pid) == pid]
+
+    def search():
+        r2 = Result(pid, tier, seed)
+        slice_hh.run_slice(r2, rng_for(seed, pid + "/search"), "thorough", [pid], 100000, 200 if tier == QUICK else 600, label="search")
+        res.notes.append(f"search ran {r2.evaluations} extra cases")
+        return [f for f in r2.oracle_failures if f.get("pid", pid) == pid]
+
+    return finish(res, lean, "proof", search, _sig, assumptions=assumptions or [])
+
+
+def check_C03(tier, seed):
+    return _hh("C03", tier, seed, "Exhaustive: all sequences of ≤ L weighted adds over {b'a', b'a\\0', b'\\0'} in a width-1 sketch × partitions.",
+               ["key identity = first max_key_len bytes (padKey_inj); hh[key] for keys longer than max_key_len raises ValueError on the real code and is observed at identities only"])
+
+
+def check_C04(tier, seed):
+    return _hh("C04", tier, seed, "Exhaustive: all orderings of small weighted multisets in a width-1 sketch with 2-way partitions and merge.",
+               ["absent 32-bit saturation = total multiplicity ≤ 2^32-1 (hypothesis NoSat of the theorems; the oracle is applied only to such histories)"])
+
+
+def check_C13(tier, seed):
+    return _hh("C13", tier, seed, "Queries use k ∈ {1,2,3,5,∞} and thresholds None/0/1/small/2^32-1/'same as last' so that both the cache-hit and the cache-miss path are taken "
+               "(counted in branch_counters); every answer is also compared with HeavyHitters.load(save()).query(...).",
+               ["Counter.most_common is modelled as a stable descending sort (insertion order = row-major scan)",
+                "default threshold floor(phi*n_added) computed in the model with Lean Float (IEEE multiply)"])
+
+
+def _rerun_hh(pid):
+    def f(fail):
+        import slice_hh
+
+        case = fail.get("case", {})
+        if "ops" not in case:
+            return True
+        run = slice_hh.HHRun(case, rng_for(0, "replay")).run()
+        return any(x.get("pid", pid) == pid for x in run.fails)
+
+    return f
+
+
+rerun_C03 = _rerun_hh("C03")
+rerun_C04 = _rerun_hh("C04")
+rerun_C13 = _rerun_hh("C13")
